@@ -122,11 +122,17 @@ fn inner_file_handler(
 
 fn blacklist_check(request: &Request, state: Arc<AppState>) -> Option<Response> {
     // Return error 403 if the address was blacklisted
-    if state
-        .config
-        .blacklist
-        .list
-        .contains(&request.address.origin_addr)
+    // Check the address the request claims to originate from as well as every address it was
+    //   forwarded through, the last of which is the actual peer: a blacklisted client must not be
+    //   able to get around the blacklist by sending an `X-Forwarded-For` header of its own.
+    let blacklist = &state.config.blacklist.list;
+
+    if blacklist.contains(&request.address.origin_addr)
+        || request
+            .address
+            .proxies
+            .iter()
+            .any(|proxy| blacklist.contains(proxy))
     {
         state.logger.warn(format!(
             "{}: Blacklisted IP attempted to request {}",
